@@ -2276,7 +2276,13 @@ class GColl(G):
             elif c < 9:
                 e = ("call", ("prop", e, "zip"), [self.source()])
             else:
-                e = ("call", ("prop", e, "chain"), [self.source()])
+                # one to three further sources, some of them empty (an empty one in the middle must be stepped over)
+                def src():
+                    if self.chance(35):
+                        return self.pick([("call", ("prop", ("list", []), "iter"), []), ("call", ("prop", N_(0), "times"), []),
+                                          ("call", ("prop", ("call", ("prop", ("var", "l"), "iter"), []), "filter"), [L_("p", ["x"], ("false",))])])
+                    return self.source()
+                e = ("call", ("prop", e, "chain"), [src() for _ in range(self.pick([1, 1, 2, 3]))])
         t = self.i(0, 9)
         if t < 4:
             return ("call", ("prop", e, "list"), [])
@@ -2988,8 +2994,10 @@ class GS(G):
                           ("num", float(k)))
         if kind == "rx-captures":
             self.uses_regexp = True
-            return kind, ("index", ("call", ("prop", ("call", ("var", "RegExp"), [("str", "(x+)-(.*)-(y+)")]), "captures"),
-                                    [("str", "xx-" + t + "-yy")]), ("num", 2.0))
+            # (one group in three patterns takes no part in the match: its capture is nil)
+            pat = self.pick(["(x+)-(.*)-(y+)", "(x+)-(.*)-(y+)(z)?", "(q)?(x+)-(.*)-(y+)|(w+)"])
+            return kind, ("index", ("call", ("prop", ("call", ("var", "RegExp"), [("str", pat)]), "captures"),
+                                    [("str", "xx-" + t + "-yy")]), ("num", 3.0 if pat.startswith("(q)") else 2.0))
         if kind == "module":
             self.in_module = True
             _, inner = self.route(t, 1)
